@@ -1,6 +1,7 @@
 import AL.Model.Needs
 import AL.Spec.Digraph
 import AL.Lemmas.NeedsBasic
+import AL.Lemmas.NeedsPrint
 /-
   C18 — job dependency checks are exact for every needs graph.
   Statements. Proved theorems are added below by name; statements that are not yet proved stay
@@ -41,6 +42,51 @@ def at_most_one_statement : Prop :=
   ∀ (lower : String → String) (jobs : List JobIn) (order : List Nat),
     ((check lower jobs order).filter (fun d => match d with | .cyclic _ => true | _ => false)).length ≤ 1
 
+/-! ## Concrete instances used in the `example`s
+
+Three small graphs show that the hypotheses of the theorems are satisfiable and what the functions
+return on them. -/
+
+/-- `a → b`, `b → c`, `c → b`: a 2-cycle `b ⇄ c` with the tail `a` (which is declared last). -/
+def gTail : Graph :=
+  [ { id := "a", pos := ⟨3, 1⟩, resolved := [1] },
+    { id := "b", pos := ⟨1, 1⟩, resolved := [2] },
+    { id := "c", pos := ⟨2, 1⟩, resolved := [1] } ]
+
+/-- `a → b`, `b → b`: a self loop behind a tail. -/
+def gSelf : Graph :=
+  [ { id := "a", pos := ⟨1, 1⟩, resolved := [1] },
+    { id := "b", pos := ⟨2, 1⟩, resolved := [1] } ]
+
+/-- `a → b, c`, `b → c`: a DAG with a shortcut edge. -/
+def gDag : Graph :=
+  [ { id := "a", pos := ⟨1, 1⟩, resolved := [1, 2] },
+    { id := "b", pos := ⟨2, 1⟩, resolved := [2] },
+    { id := "c", pos := ⟨3, 1⟩, resolved := [] } ]
+
+theorem wf_gTail : WF gTail := wf_of_wfCheck (by decide)
+theorem wf_gSelf : WF gSelf := wf_of_wfCheck (by decide)
+theorem wf_gDag : WF gDag := wf_of_wfCheck (by decide)
+
+theorem covers3 (g : Graph) (h : g.length = 3) (order : List Nat) (h0 : 0 ∈ order) (h1 : 1 ∈ order)
+    (h2 : 2 ∈ order) : Covers g order := by
+  intro v hv
+  have : v = 0 ∨ v = 1 ∨ v = 2 := by omega
+  rcases this with rfl | rfl | rfl <;> assumption
+
+theorem isCycle_gTail : IsCycle gTail [1, 2, 1] :=
+  ⟨.cons 1 2 [1] (by decide) (by simp [Graph.succ, gTail])
+      (.cons 2 1 [] (by decide) (by simp [Graph.succ, gTail]) (.single 1 (by decide))), by decide, rfl⟩
+
+theorem isCycle_gSelf : IsCycle gSelf [1, 1] :=
+  ⟨.cons 1 1 [] (by decide) (by simp [Graph.succ, gSelf]) (.single 1 (by decide)), by decide, rfl⟩
+
+/-- Evaluation of the model functions (defined by well-founded recursion, so `decide`/`rfl` do not
+reduce them) on literals, by rewriting with their equations. -/
+macro "needs_eval" : tactic =>
+  `(tactic| simp [cycleDiag, gTail, gSelf, gDag, detectFirstCycle, detectCyclicNode, visitList, collectCycle,
+      collectList, Graph.succ, setStatus, Edges.put, Edges.get?, pickStart, posOf, idOf, P.isBefore, printLoop])
+
 /-! ## Proofs -/
 
 /-- (f) -/
@@ -60,6 +106,18 @@ theorem at_most_one : at_most_one_statement := by
       split <;> simp
     · simp [h0]
 
+/-- (f) on a workflow `a needs b`, `b needs a`: exactly one cyclic diagnostic; and with an additional
+dangling reference `b needs zz` no cyclic diagnostic at all. -/
+example :
+    check id [⟨"a", ⟨1, 1⟩, ⟨1, 1⟩, [⟨"b", ⟨2, 5⟩⟩]⟩, ⟨"b", ⟨3, 1⟩, ⟨3, 1⟩, [⟨"a", ⟨4, 5⟩⟩]⟩] [0, 1]
+      = [.cyclic { pos := ⟨1, 1⟩, path := ["a", "b", "a"] }] ∧
+    check id [⟨"a", ⟨1, 1⟩, ⟨1, 1⟩, [⟨"b", ⟨2, 5⟩⟩]⟩, ⟨"b", ⟨3, 1⟩, ⟨3, 1⟩, [⟨"a", ⟨4, 5⟩⟩, ⟨"zz", ⟨4, 8⟩⟩]⟩] [0, 1]
+      = [.undefined ⟨3, 1⟩ "b" "zz"] := by
+  constructor <;>
+  simp [check, visitJobs, normNeeds, resolve, indexOf?, List.findIdx_cons, cycleDiag, detectFirstCycle,
+    detectCyclicNode, visitList, collectCycle, collectList, Graph.succ, setStatus, Edges.put, Edges.get?,
+    pickStart, posOf, idOf, P.isBefore, printLoop]
+
 /-- (e) -/
 theorem undefined_exact : undefined_exact_statement := by
   intro nodes p i d
@@ -71,6 +129,11 @@ theorem undefined_exact : undefined_exact_statement := by
   · rintro ⟨n, hn, rfl, rfl, hd, hall⟩
     exact ⟨n, hn, d, ⟨hd, (indexOf?_isNone nodes d).2 hall⟩, rfl⟩
 
+/-- (e) on `a needs [b, x]`, `b needs []`: exactly `x` dangles. -/
+example :
+    (resolve [⟨"a", ⟨1, 1⟩, ["b", "x"]⟩, ⟨"b", ⟨2, 1⟩, []⟩]).2 = [.undefined ⟨1, 1⟩ "a" "x"] := by
+  simp [resolve, indexOf?, List.findIdx_cons]
+
 /-- (d) -/
 theorem fuel_irrelevant : fuel_irrelevant_statement := by
   intro g st v f _ hlen _ hf
@@ -79,5 +142,96 @@ theorem fuel_irrelevant : fuel_irrelevant_statement := by
     have := countNew_le_length (setStatus st v .active)
     simpa [setStatus, hlen] using this
   exact visitList_fuel_irrel g f g.length _ v _ (by omega) this
+
+/-- (d) on the 2-cycle with tail, all nodes new, root `a`: hypotheses hold, and the DFS finds the back
+edge `c → b` with all three nodes on the stack, for fuel 3 and for fuel 7. -/
+example : WF gTail ∧ [Status.new, .new, .new].length = gTail.length ∧
+    [Status.new, .new, .new][0]? = some .new ∧ gTail.length ≤ 7 ∧
+    detectCyclicNode gTail 7 [.new, .new, .new] 0 = (some (2, 1), [.active, .active, .active]) ∧
+    detectCyclicNode gTail gTail.length [.new, .new, .new] 0 = (some (2, 1), [.active, .active, .active]) := by
+  refine ⟨wf_gTail, rfl, rfl, by decide, ?_, ?_⟩ <;>
+  simp [detectCyclicNode, visitList, gTail, Graph.succ, setStatus]
+
+/-- Common core of (a), (b), (c): what `cycleDiag` returns, by the result of the root loop. -/
+theorem cycleDiag_cases (g : Graph) (order : List Nat) (hwf : WF g) :
+    (cycleDiag g order = none ∧ ∃ st, detectFirstCycle g order (g.map fun _ => Status.new) = (none, st)) ∨
+    ∃ vs, IsCycle g vs ∧
+      cycleDiag g order = some { pos := posOf g (vs.headD 0), path := vs.map (idOf g) } ∧
+      ∀ v ∈ vs, (posOf g v).isBefore (posOf g (vs.headD 0)) = false := by
+  rcases hres : detectFirstCycle g order (g.map fun _ => Status.new) with ⟨r, st⟩
+  cases r with
+  | none => exact Or.inl ⟨cycleDiag_of_none hres, st, rfl⟩
+  | some e =>
+    obtain ⟨a, b⟩ := e
+    exact Or.inr (cycleDiag_of_found hres (detectFirstCycle_some hwf order (topInv_init g) hres))
+
+/-- (c) -/
+theorem printed_is_cycle : printed_is_cycle_statement := by
+  intro g order d hwf hd
+  rcases cycleDiag_cases g order hwf with ⟨hnone, _⟩ | ⟨vs, hcyc, hsome, hmin⟩
+  · rw [hnone] at hd; cases hd
+  · rw [hsome] at hd
+    cases hd
+    exact ⟨vs, hcyc, rfl, rfl, fun v hv => by rw [hmin v hv]; exact Bool.false_ne_true⟩
+
+/-- (c) on the 2-cycle with tail: the witness is `b → c → b`, reported at `b` (the earliest position
+on the cycle; the tail `a` is not mentioned). -/
+example : cycleDiag gTail [0, 1, 2] = some { pos := ⟨1, 1⟩, path := ["b", "c", "b"] } ∧
+    IsCycle gTail [1, 2, 1] ∧ ["b", "c", "b"] = [1, 2, 1].map (idOf gTail) ∧
+    (⟨1, 1⟩ : P) = posOf gTail ([1, 2, 1].headD 0) ∧
+    ∀ v ∈ [1, 2, 1], ¬ (posOf gTail v).isBefore ⟨1, 1⟩ := by
+  refine ⟨by needs_eval, isCycle_gTail, by simp [idOf, gTail], by simp [posOf, gTail], ?_⟩
+  simp [posOf, gTail, P.isBefore]
+
+/-- (c) on the self loop: the printed cycle is `b → b`. -/
+example : cycleDiag gSelf [0, 1] = some { pos := ⟨2, 1⟩, path := ["b", "b"] } ∧ IsCycle gSelf [1, 1] :=
+  ⟨by needs_eval, isCycle_gSelf⟩
+
+/-- (a) -/
+theorem acyclic_none : acyclic_none_statement := by
+  intro g order hwf hac
+  rcases cycleDiag_cases g order hwf with ⟨hnone, _⟩ | ⟨vs, hcyc, _, _⟩
+  · exact hnone
+  · exact absurd ⟨vs, hcyc⟩ hac
+
+/-- (b) -/
+theorem cyclic_some : cyclic_some_statement := by
+  intro g order hwf hcov hcyc
+  rcases cycleDiag_cases g order hwf with ⟨_, st, hnone⟩ | ⟨vs, _, hsome, _⟩
+  · obtain ⟨a, b, st', hsome⟩ := detectFirstCycle_of_cyclic hwf hcov hcyc
+    rw [hnone] at hsome
+    cases hsome
+  · rw [hsome]; rfl
+
+/-- (b) on the 2-cycle with tail: two different map orders, same diagnostic. -/
+example : WF gTail ∧ Covers gTail [0, 1, 2] ∧ Cyclic gTail ∧
+    cycleDiag gTail [0, 1, 2] = some { pos := ⟨1, 1⟩, path := ["b", "c", "b"] } ∧
+    cycleDiag gTail [2, 1, 0] = some { pos := ⟨1, 1⟩, path := ["b", "c", "b"] } :=
+  ⟨wf_gTail, covers3 _ rfl _ (by simp) (by simp) (by simp), ⟨_, isCycle_gTail⟩, by needs_eval, by needs_eval⟩
+
+/-- (b) on the self loop. -/
+example : WF gSelf ∧ Covers gSelf [1, 0] ∧ Cyclic gSelf ∧
+    cycleDiag gSelf [1, 0] = some { pos := ⟨2, 1⟩, path := ["b", "b"] } := by
+  refine ⟨wf_gSelf, ?_, ⟨_, isCycle_gSelf⟩, by needs_eval⟩
+  intro v hv
+  have : v = 0 ∨ v = 1 := by simp [gSelf] at hv; omega
+  rcases this with rfl | rfl <;> simp
+
+/-- (b) really needs `Covers`: an order that misses the cycle reports nothing. -/
+example : Cyclic gSelf ∧ cycleDiag gSelf [] = none := ⟨⟨_, isCycle_gSelf⟩, by needs_eval⟩
+
+theorem cycleDiag_gDag : cycleDiag gDag [2, 0, 1] = none := by needs_eval
+
+/-- The DAG is acyclic: by (b), a cycle would force a diagnostic. -/
+theorem acyclic_gDag : ¬ Cyclic gDag := by
+  intro h
+  have := cyclic_some gDag [2, 0, 1] wf_gDag (covers3 _ rfl _ (by simp) (by simp) (by simp)) h
+  rw [cycleDiag_gDag] at this
+  cases this
+
+/-- (a) on the DAG: the hypotheses hold and nothing is reported, also for a partial or repetitive
+order. -/
+example : WF gDag ∧ ¬ Cyclic gDag ∧ cycleDiag gDag [2, 0, 1] = none ∧ cycleDiag gDag [1, 1, 7] = none :=
+  ⟨wf_gDag, acyclic_gDag, acyclic_none gDag _ wf_gDag acyclic_gDag, acyclic_none gDag _ wf_gDag acyclic_gDag⟩
 
 end AL.C18
